@@ -368,7 +368,7 @@ def build_world_and_probes(rng, blocks, headers, unsized=False, nprobes=6, impl_
 def gen_targs_case(rng, variant=None):
     """traits with lifetime / type / const parameters (bounds, defaults, ?Sized): blocks for
     generic and for concrete instantiations, families per instantiation"""
-    variant = variant or rng.choice(['generic', 'concrete', 'lifetime', 'const', 'bounded', 'unsized_arg', 'mixed', 'default_omitted', 'nested_unsized', 'unsized_where'])
+    variant = variant or rng.choice(['generic', 'concrete', 'lifetime', 'const', 'bounded', 'unsized_arg', 'mixed', 'default_omitted', 'nested_unsized', 'unsized_where', 'unsized_nested_arg', 'nested_arg', 'reflexive_mix'])
     tr = rng.choice(['D', 'D2'])
     trait_where = ''
     def fam(trait_args, self_fmt, used, groups, tag0, extra_bounds=(), relaxed=None):
@@ -423,6 +423,39 @@ def gen_targs_case(rng, variant=None):
                      relaxed={'T1': rng.choice(['inline', 'where'])})
         extra_world = 'impl Tr0 for X0 {}\nimpl Tr0 for str {}\nimpl Tr0 for [u8] {}\n'
         targs_pool = ['X0', 'str', '[u8]']      # `K<X1>` would be ill-formed (X1: Tr0 does not hold)
+    elif variant == 'unsized_nested_arg':
+        # a relaxed parameter that is not dispatched on and occurs in the header only nested
+        # inside a trait argument: K<Box<V>> for T, V: ?Sized
+        tg = '<P>'
+        wrap = rng.choice(['Box<{T1}>', "&'static {T1}"])
+        blocks = fam(wrap, '{T0}', ['T0', 'T1'], rng.sample(GROUPS, 2), 0, relaxed={'T1': rng.choice(['inline', 'where'])})
+        if rng.random() < 0.5:
+            blocks[0].relaxed = {}       # only one block relaxes
+        targs_pool = [wrap.format(T1=x) for x in ('X0', 'str', '[u8]')]
+    elif variant == 'nested_arg':
+        # a member nested through a trait argument, with a wildcard key and a bound of its own
+        # on the inner parameter:  K<U> for T (T: D2<G=.., H=..>)  >  K<Vec<U>> for T (T: D2<G=..>, U: D<G=..>)
+        tg = '<P>'
+        tr = 'D2'
+        g = rng.sample(GROUPS, 3)
+        pl = lambda: rng.choice(['inline', 'where'])
+        on_arg = rng.random() < 0.5        # the key is on the trait-argument parameter itself
+        kb, nkb = ('{T1}', 'Vec<{T1}>') if on_arg else ('{T0}', '{T0}')
+        general = [Block(mk_slots(rng, ['T0', 'T1']), '{T1}', '{T0}', [(kb, 'D2', {'G': g[i], 'H': rng.choice(GROUPS)}, pl())], 'b%d' % i) for i in range(rng.choice([1, 2]))]
+        nb = Block(mk_slots(rng, ['T0', 'T1']), 'Vec<{T1}>', '{T0}', [(nkb, 'D2', {'G': g[2]}, 'where' if on_arg else pl()), ('{T1}', 'D', {'G': rng.choice(GROUPS)}, pl())], 'bn')
+        blocks = general + [nb]
+        targs_pool = ['X0', 'X1', 'Vec<X0>', 'Vec<X1>']
+    elif variant == 'reflexive_mix':
+        # a parameter shared by the trait arguments and the self type, next to headers that
+        # instantiate the two occurrences differently
+        tg = '<P>'
+        g = rng.sample(GROUPS, 3)
+        pl = lambda: rng.choice(['inline', 'where'])
+        b0 = Block(mk_slots(rng, ['T0']), '{T0}', '{T0}', [('{T0}', tr, {'G': g[0]}, pl())], 'b0')
+        b1 = Block(mk_slots(rng, ['T0']), 'X0', 'Vec<{T0}>', [('Vec<{T0}>', tr, {'G': g[1]}, 'where')], 'b1')
+        b2 = Block(mk_slots(rng, ['T0']), 'X1', '{T0}', [('{T0}', tr, {'G': g[2]}, pl())], 'b2')
+        blocks = [b0, b1] + ([b2] if rng.random() < 0.6 else [])
+        targs_pool = ['X0', 'X1', 'Vec<X0>']
     elif variant == 'default_omitted':
         # a defaulted (bounded) trailing parameter omitted at every use site, after a lifetime
         # or const parameter
@@ -461,12 +494,17 @@ def gen_targs_case(rng, variant=None):
     self_pool = ["&'static X0", "&'static X1", "&'static X2"] if variant in ('lifetime', 'mixed') or tg.startswith("<'a") else ['X0', 'X1', 'X2', 'Vec<X0>']
     if variant == 'nested_unsized':
         self_pool = ['X0', 'X1', 'str', '[u8]']
+    if variant == 'reflexive_mix':
+        self_pool = ['X0', 'X1', 'Vec<X0>', 'Vec<X1>']
     probes = [(ta, ty) for ty in self_pool for ta in targs_pool]
     rng.shuffle(probes)
     probes = probes[:12]
     world = {}
-    for ty in ['X0', 'X1', 'X2', 'Vec<X0>'] + (['str', '[u8]'] if variant == 'nested_unsized' else []):
+    for ty in ['X0', 'X1', 'X2', 'Vec<X0>'] + (['str', '[u8]'] if variant == 'nested_unsized' else []) + (['Vec<X1>'] if variant in ('reflexive_mix', 'nested_arg') else []):
         world[(ty, tr)] = {a: rng.choice(GROUPS) for a in TRAITS[tr]} if rng.random() < 0.85 else None
+    if variant == 'nested_arg':
+        for ty in ['X0', 'X1', 'X2']:
+            world[(ty, 'D')] = {'G': rng.choice(GROUPS)} if rng.random() < 0.85 else None
     c = Case('targs:' + variant, 'K', tg, blocks, probes, world, extra_world=extra_world)
     c.trait_where = trait_where
     return c
@@ -624,6 +662,27 @@ def gen_case(rng, kind, idx=None):
                 world[(ty, trt)] = {'G': rng.choice([b.bounds[0][2]['G'] for b in general])}
             elif not ty.startswith(wname + '<') and rng.random() < 0.5:
                 world[(ty, trt)] = {'G': inner[2]['G']}
+        return Case(kind, 'K', '', blocks, probes, world)
+    elif kind == 'arity':
+        # one key common to the blocks, and a dispatch trait used at two arities on the side:
+        # T: D<G=a> + Dp<G=x>   |   T: D<G=b> + Dp<u8, G=y>
+        h = pk.choice(['T', 'vec', 'pair'])
+        self_fmt, used = HEADERS[h]
+        g = rng.sample(GROUPS, 2)
+        side = pk.choice([('Dp', 'Dp<u8>'), ('Dp<u8>', 'Dp'), ('Dc<1>', 'Dc<2>')])
+        blocks = []
+        for i in range(2):
+            slots = mk_slots(rng, used)
+            order = list(slots); rng.shuffle(order)
+            bounds = [('{T0}', 'D', {'G': g[i]}, rng.choice(['inline', 'where'])), ('{T0}', side[i], {'G': rng.choice(GROUPS)}, rng.choice(['inline', 'where']))]
+            if rng.random() < 0.5:
+                bounds.reverse()
+            blocks.append(Block({x: slots[x] for x in order}, None, self_fmt, bounds, 'b%d' % i))
+        headers = [HEADERS[h]] * 2
+        probes, world = build_world_and_probes(rng, blocks, headers, nprobes=8, impl_rate=0.6, prefer_rate=0.7)
+        for key in list(world):       # D itself mostly implemented, the side traits often only one of the two
+            if key[1] == 'D' and world[key] is None and rng.random() < 0.7:
+                world[key] = {'G': rng.choice(g)}
         return Case(kind, 'K', '', blocks, probes, world)
     elif kind == 'payload':
         # generic payloads: the bound's associated type is bound to a type built from a parameter
